@@ -710,4 +710,248 @@ theorem sortByLoop_raised (f : Nat → Val → Val → Option Bool) (rp rest : L
     exact ih _ _
 
 end Impl
+open Impl
+
+/-! ### searching: `List.Index`'s loop finds the first equal item -/
+
+theorem indexOf_refines (eq : Val → Val → Bool) (v : Val) (xs : List Val) :
+    Impl.indexOf eq v xs = Spec.indexOf eq v xs := by
+  unfold Spec.indexOf
+  induction xs with
+  | nil => simp [Impl.indexOf]
+  | cons y ys ih =>
+    unfold Impl.indexOf
+    rw [List.findIdx?_cons]
+    by_cases hy : eq v y = true
+    · simp [hy]
+    · simp only [hy, Bool.false_eq_true, ↓reduceIte, ih]
+
+/-! ### list iterators: Go's cursor arithmetic reads item number `k` of the live list -/
+
+theorem iterNext_refines (xs : List Val) (k : Nat) : Impl.iterNext xs k = Spec.iterNext xs k := by
+  unfold Impl.iterNext Spec.iterNext
+  split
+  · rename_i h
+    have : xs.length ≤ k := by omega
+    simp [List.getElem?_eq_none_iff.2 this]
+  · rfl
+
+theorem nextOf_refines (xs : List Val) (k : Nat) : nextOf .impl xs k = nextOf .spec xs k := by
+  simp only [nextOf, iterNext_refines]
+
+theorem nextOf_eq (m : Mode) (xs : List Val) (k : Nat) : nextOf m xs k = xs[k]? := by
+  cases m
+  · simp only [nextOf, iterNext_refines, Spec.iterNext]
+  · simp only [nextOf, Spec.iterNext]
+
+theorem drainLoop_eq (f : Nat) (xs : List Val) (k : Nat) (acc : List Val) (hf : xs.length - k < f) :
+    Impl.drainLoop f xs k acc = (acc ++ xs.drop k, max k xs.length) := by
+  induction f generalizing k acc with
+  | zero => omega
+  | succ f ih =>
+    unfold Impl.drainLoop
+    rw [iterNext_refines]; unfold Spec.iterNext
+    cases hk : xs[k]? with
+    | none =>
+      have : xs.length ≤ k := List.getElem?_eq_none_iff.1 hk
+      simp only
+      rw [List.drop_eq_nil_of_le this, List.append_nil, Nat.max_eq_left this]
+    | some v =>
+      have hlt : k < xs.length := by
+        rcases Nat.lt_or_ge k xs.length with h | h
+        · exact h
+        · rw [List.getElem?_eq_none_iff.2 h] at hk; cases hk
+      simp only
+      rw [ih (k + 1) (acc ++ [v]) (by omega)]
+      have hd : xs.drop k = v :: xs.drop (k + 1) := by
+        rw [List.drop_eq_getElem_cons hlt]
+        congr 1
+        rw [List.getElem?_eq_getElem hlt] at hk
+        exact Option.some.inj hk
+      rw [hd, List.append_assoc]
+      simp only [List.cons_append, List.nil_append]
+      congr 1
+      omega
+
+theorem drain_refines (xs : List Val) (k : Nat) : Impl.drain xs k = Spec.drain xs k := by
+  unfold Impl.drain Spec.drain
+  rw [drainLoop_eq _ xs k [] (by omega)]
+  simp
+
+/-! ### `for` loops over a list that the body changes -/
+
+theorem bodyList_refines (eq : Val → Val → Bool) (b : Body) (xs : List Val) (k : Nat) (x : Val) :
+    bodyList .impl eq b xs k x = bodyList .spec eq b xs k x := by
+  cases b <;> simp only [bodyList, pop_refines, remove_refines, setItem_refines, insert_refines]
+
+theorem forLoop_refines (r : Nat) (w : Bool) (b : Body) (f : Nat) (h : Heap) (k : Nat) (acc : List Val) :
+    forLoop .impl r w b f h k acc = forLoop .spec r w b f h k acc := by
+  induction f generalizing h k acc with
+  | zero => rfl
+  | succ f ih =>
+    unfold forLoop
+    simp only [nextOf_refines, bodyList_refines, ih]
+
+theorem Heap.put_get_self (h : Heap) (r : Nat) : h.put r (h.get r) = h := by
+  unfold Heap.put Heap.get
+  rcases Nat.lt_or_ge r h.objs.length with hr | hr
+  · have : h.objs.getD r (.list []) = h.objs[r] := by
+      rw [List.getD_eq_getElem?_getD, List.getElem?_eq_getElem hr]; rfl
+    rw [this, List.set_getElem_self]
+  · rw [List.set_eq_of_length_le hr]
+
+/-- a loop whose body does nothing to the list leaves the whole heap as it was and records
+    the items from the cursor on -/
+def pairsFrom (w : Bool) : Nat → List Val → List Val
+  | _, [] => []
+  | k, x :: xs => (if w then [.int k, x] else [x]) ++ pairsFrom w (k + 1) xs
+
+theorem forLoop_none (m : Mode) (r : Nat) (w : Bool) (xs : List Val) (f : Nat) (h : Heap) (k : Nat)
+    (acc : List Val) (hg : h.get r = .list xs) (hf : xs.length - k < f) :
+    forLoop m r w .none f h k acc = (h, acc ++ pairsFrom w k (xs.drop k)) := by
+  induction f generalizing k acc with
+  | zero => omega
+  | succ f ih =>
+    unfold forLoop
+    simp only [hg, nextOf_eq, bodyList]
+    cases hk : xs[k]? with
+    | none =>
+      have : xs.length ≤ k := List.getElem?_eq_none_iff.1 hk
+      simp [List.drop_eq_nil_of_le this, pairsFrom]
+    | some v =>
+      have hlt : k < xs.length := by
+        rcases Nat.lt_or_ge k xs.length with h' | h'
+        · exact h'
+        · rw [List.getElem?_eq_none_iff.2 h'] at hk; cases hk
+      have hd : xs.drop k = v :: xs.drop (k + 1) := by
+        rw [List.drop_eq_getElem_cons hlt]
+        congr 1
+        rw [List.getElem?_eq_getElem hlt] at hk
+        exact Option.some.inj hk
+      simp only
+      rw [← hg, Heap.put_get_self, ih (k + 1) _ (by omega), hd]
+      simp [pairsFrom, List.append_assoc]
+
+/-- a loop changes no object but the list it iterates, and creates none -/
+theorem forLoop_keeps (m : Mode) (r : Nat) (w : Bool) (b : Body) (f : Nat) (h : Heap) (k : Nat) (acc : List Val) :
+    (forLoop m r w b f h k acc).1.objs.length = h.objs.length ∧
+    (forLoop m r w b f h k acc).1.arrs = h.arrs ∧
+    ∀ q, q ≠ r → (forLoop m r w b f h k acc).1.objs[q]? = h.objs[q]? := by
+  induction f generalizing h k acc with
+  | zero => simp [forLoop]
+  | succ f ih =>
+    unfold forLoop
+    split
+    · split
+      · simp
+      · rename_i xs _ _ x _
+        have := ih (h.put r (.list (bodyList m (heq h) b xs k x))) (k + 1) (acc ++ (if w then [.int k, x] else [x]))
+        refine ⟨?_, ?_, ?_⟩
+        · rw [this.1]; simp [Heap.put]
+        · rw [this.2.1]; simp [Heap.put]
+        · intro q hq
+          rw [this.2.2 q hq]
+          simp only [Heap.put, List.getElem?_set]
+          split
+          · omega
+          · rfl
+    · simp
+
+/-! ### the fuel of a `for` loop: `max (length, bound of the body)` rounds always suffice -/
+
+theorem get_lt_of_ne_nil (h : Heap) (r : Nat) (xs : List Val) (hg : h.get r = .list xs) (hne : xs ≠ []) :
+    r < h.objs.length := by
+  rcases Nat.lt_or_ge r h.objs.length with hr | hr
+  · exact hr
+  · exfalso
+    unfold Heap.get at hg
+    rw [List.getD_eq_getElem?_getD, List.getElem?_eq_none_iff.2 hr] at hg
+    simp only [Option.getD_none, Obj.list.injEq] at hg
+    exact hne hg.symm
+
+theorem get_put_same (h : Heap) (r : Nat) (o : Obj) (hr : r < h.objs.length) : (h.put r o).get r = o := by
+  unfold Heap.put Heap.get
+  rw [List.getD_eq_getElem?_getD]
+  simp [List.getElem?_set_self hr]
+
+/-- no body lets the list grow beyond `max (its length, the body's bound)` -/
+theorem bodyList_length_le (m : Mode) (eq : Val → Val → Bool) (b : Body) (xs : List Val) (k : Nat) (x : Val) :
+    (bodyList m eq b xs k x).length ≤ max xs.length b.bound := by
+  have hspec : bodyList m eq b xs k x = bodyList .spec eq b xs k x := by
+    cases m
+    · exact bodyList_refines eq b xs k x
+    · rfl
+  rw [hspec]
+  cases b with
+  | none => simp [bodyList, Body.bound]
+  | grow n =>
+    simp only [bodyList, Body.bound]
+    split
+    · simp only [List.length_append, List.length_singleton]; omega
+    · omega
+  | popLast =>
+    simp only [bodyList, Body.bound, Spec.pop]
+    split
+    · rename_i v ys hp
+      split at hp
+      · split at hp
+        · simp only [Option.some.injEq, Prod.mk.injEq] at hp
+          rw [← hp.2]
+          exact Nat.le_trans (List.length_eraseIdx_le ..) (Nat.le_max_left ..)
+        · cases hp
+      · cases hp
+    · omega
+  | removeCur =>
+    simp only [bodyList, Body.bound, Spec.remove]
+    exact Nat.le_trans (List.length_eraseP_le ..) (Nat.le_max_left ..)
+  | clear => simp [bodyList]
+  | setNext v =>
+    simp only [bodyList, Body.bound, Spec.setItem]
+    split
+    · split
+      · rename_i ys hs
+        split at hs
+        · simp only [Option.some.injEq] at hs
+          rw [← hs]; simp
+        · cases hs
+      · omega
+    · omega
+  | insertFront n =>
+    simp only [bodyList, Body.bound]
+    split
+    · simp only [Spec.insert, List.length_append, List.length_take, List.length_cons, List.length_drop]
+      omega
+    · omega
+
+/-- **one more unit of fuel changes nothing** once the fuel exceeds the rounds that can still
+    come: `max (length, bound) - k` -/
+theorem forLoop_fuel_succ (m : Mode) (r : Nat) (w : Bool) (b : Body) (f : Nat) (h : Heap) (k : Nat)
+    (acc : List Val) (xs : List Val) (hg : h.get r = .list xs) (hf : max xs.length b.bound - k < f) :
+    forLoop m r w b (f + 1) h k acc = forLoop m r w b f h k acc := by
+  induction f generalizing h k acc xs with
+  | zero => omega
+  | succ f ih =>
+    rw [forLoop, forLoop]
+    simp only [hg, nextOf_eq]
+    cases hk : xs[k]? with
+    | none => rfl
+    | some x =>
+      have hlt : k < xs.length := by
+        rcases Nat.lt_or_ge k xs.length with h' | h'
+        · exact h'
+        · rw [List.getElem?_eq_none_iff.2 h'] at hk; cases hk
+      have hne : xs ≠ [] := by intro e; subst e; simp at hlt
+      have hr := get_lt_of_ne_nil h r xs hg hne
+      have hlen := bodyList_length_le m (heq h) b xs k x
+      simp only
+      exact ih _ (k + 1) _ _ (get_put_same h r _ hr) (by omega)
+
+theorem forLoop_fuel_enough (m : Mode) (r : Nat) (w : Bool) (b : Body) (h : Heap) (k : Nat)
+    (acc : List Val) (xs : List Val) (hg : h.get r = .list xs) (f d : Nat) (hf : max xs.length b.bound - k < f) :
+    forLoop m r w b (f + d) h k acc = forLoop m r w b f h k acc := by
+  induction d with
+  | zero => rfl
+  | succ d ih =>
+    rw [← Nat.add_assoc, forLoop_fuel_succ m r w b (f + d) h k acc xs hg (by omega), ih]
+
 end Risor.C16
